@@ -104,6 +104,8 @@ impl Modulator for Tweener {
 	}
 
 	fn finished(&self) -> bool {
+		#[cfg(feature = "verif-hooks")]
+		crate::verif::sync_point("modulator.removed.load");
 		self.shared.removed.load(Ordering::SeqCst)
 	}
 }
